@@ -19,7 +19,7 @@ type c06Case struct {
 	Special string `json:"special,omitempty"`
 }
 
-var c06LayoutItems = []string{"T", "Ra", "Rb", "IFa", "IFb", "IFFa", "EACHa", "EACHb", "PV", "T2", "IFEa", "AW", "PW"}
+var c06LayoutItems = []string{"T", "Ra", "Rb", "IFa", "IFb", "IFFa", "EACHa", "EACHb", "PV", "T2", "IFEa", "AW", "PW", "COMP"}
 
 func c06LayoutNode(ix, pos int) []*Node {
 	res := func(n string) *Node { return &Node{K: "reserve", Name: n} }
@@ -46,6 +46,8 @@ func c06LayoutNode(ix, pos int) []*Node {
 		return []*Node{{K: "each", Name: "i", E: &Expr{Op: "arr", Kids: []*Expr{eLit(vInt(1)), eLit(vInt(2))}}, Body: []*Node{nText("<"), res("b"), nText(">")}}}
 	case "PV":
 		return []*Node{nText("[v="), nPrint(eVar("v")), nText("]")}
+	case "COMP":
+		return []*Node{{K: "component", Name: "lc", HasArgs: true, Keys: []string{"a"}, Vals: []*Expr{eVar("v")}}}
 	case "AW":
 		return []*Node{nAssign("w", eLit(vStr("light")))}
 	case "PW":
@@ -145,7 +147,8 @@ func c06Build(cs c06Case) c06Built {
 			page2.Nodes = append(page2.Nodes, n, nText(" "))
 		}
 	}
-	b.env = &tplEnv{files: map[string]*TplFile{layName: lay, "index": page, "zpage2": page2, "apage0": {Use: useName}}}
+	lcFile := &TplFile{Nodes: []*Node{nText("<lc "), nPrint(eVar("a")), nText(">")}}
+	b.env = &tplEnv{files: map[string]*TplFile{layName: lay, "index": page, "zpage2": page2, "apage0": {Use: useName}, "lc": lcFile}}
 	switch cs.Data {
 	case 0:
 		b.data = map[string]Val{"v": vStr("V")}
@@ -163,6 +166,7 @@ func c06Build(cs c06Case) c06Built {
 	b.tree.Files[layName+ext] = printFile(lay)
 	b.tree.Files["index"+ext] = printFile(page)
 	b.tree.Files["plain"+ext] = "plain page"
+	b.tree.Files["lc"+ext] = printFile(lcFile)
 	b.tree.Files["zpage2"+ext] = printFile(page2)
 	b.tree.Files["apage0"+ext] = printFile(&TplFile{Use: useName})
 	b.page = "index"
@@ -280,7 +284,11 @@ func c06Run(c *Ctx) {
 		maxItems = 4
 	}
 	for k := 1; k <= maxItems; k++ {
-		if !seqEnum(c, len(c06LayoutItems), k, func(idx []int) bool {
+		nItems := len(c06LayoutItems)
+		if k == 4 {
+			nItems = 9 // the longest layouts use the first nine item kinds
+		}
+		if !seqEnum(c, nItems, k, func(idx []int) bool {
 			seen := map[string]bool{}
 			for _, ix := range idx {
 				if r := c06ItemReserve(ix); r != "" {
@@ -300,7 +308,7 @@ func c06Run(c *Ctx) {
 						for data := 0; data < 3; data++ {
 							// use form, junk and configuration rotate (all combinations in the thorough tier)
 							combos := [][3]int{{int(order) % 2, int(order/2) % 2, int(order/4) % 2}}
-							if c.Thorough() || k <= 2 {
+							if (c.Thorough() && k <= 3) || k <= 2 {
 								combos = [][3]int{{0, 0, 0}, {1, 1, 0}, {0, 1, 1}, {1, 0, 1}}
 							}
 							for _, cb := range combos {
@@ -341,7 +349,7 @@ func init() {
 			"Reference: RefTW substitution; inserts that name no reserve must fail loading with an error naming the insert. Non-trivial: the page has at least one insert or a fault",
 		Bounds: func(tier string) map[string]any {
 			if tier == "thorough" {
-				return map[string]any{"layout_items": 4, "item_alphabet": len(c06LayoutItems), "insert_forms": c06InsForms - 1, "all_use_junk_cfg_combinations": true}
+				return map[string]any{"layout_items": 4, "item_alphabet": len(c06LayoutItems), "item_alphabet_len4": 9, "insert_forms": c06InsForms - 1, "all_use_junk_cfg_combinations_up_to_len": 3}
 			}
 			return map[string]any{"layout_items": 3, "item_alphabet": len(c06LayoutItems), "insert_forms": c06InsForms - 1}
 		},
